@@ -311,6 +311,30 @@ impl Prop for C11 {
                     }
                     _ => judge_time(&run, want, &mut v),
                 }
+                if v.violation.is_none() {
+                    for (what, cc) in super::common::contexts_of(line).iter() {
+                        let r = run_case(ctx, cc);
+                        v.evals += 1;
+                        let mut probe = Verdict::default();
+                        // the value under test is in the last slot
+                        let last = match &r {
+                            Run::Done(o) if o.status && !o.slots.is_empty() => Run::Done(obs::Obs { status: true, slots: vec![o.slots.last().unwrap().clone()], ui: Vec::new() }),
+                            other => other.clone(),
+                        };
+                        if let Run::Panic(p) = &last {
+                            probe.violation = Some(format!("panic: {}", p.message));
+                            v.site = Some(p.site.clone());
+                        } else {
+                            judge_time(&last, want, &mut probe);
+                        }
+                        if let Some(w) = probe.violation {
+                            v.input = input_of(cc);
+                            v.observed = r.brief();
+                            v.violation = Some(format!("{} [context: {}]", w, what));
+                            break;
+                        }
+                    }
+                }
                 v
             }
             Case::Switch { zones } => {
